@@ -15,6 +15,9 @@ def run(ctx):
         "the probability matrix is finite, non-negative and sums to the number of idle ensembles; after every step: idle slots have a "
         "non-zero diagonal, live paths distinct, path numbers increasing and never reused across restarts; every restart loads; "
         "a child that does not terminate within the time-out (sort loop) or raises is a violation. "
-        "Non-trivial: >=1 replacement and (>=2 jobs in flight or a restart). Distinct = digest of the case."
+        "Non-trivial: >=1 replacement and (>=2 jobs in flight or a restart). Distinct = digest of the case. Additionally an exhaustive in-memory exploration (checks/enumsys.py) of small systems (3-4 interfaces; thorough: up to 5): every completion order x every move outcome from {reject, accept-minimal, accept-far} x every result of the scheduler's random choices, run to closure of the reachable (weight matrix, busy marks, in-flight jobs) states with the same invariants."
     )
+    from checks import enumsys
+
+    enumsys.run_enum(ctx, dict(FLAGS), ("C05:", "EXC:"), ())
     run_property(ctx, "history", strategy, body, ctx.pick(1200, 12000), shards=ctx.procs, shrink=not ctx.quick)
